@@ -45,8 +45,10 @@ WORDS = [
     ("\\ob", R.L),
 ]
 SEPS = [" ", "~", ",", "  "]
+ODD = ["\xa0", "\r"]  # NBSP is not a word separator for this code (documented set: space ~ CR LF tab); CR is
 RAW = ["{", "}", "\\"]
-SIGMA = [w for w, _ in WORDS] + SEPS + RAW
+SIGMA_MAIN = [w for w, _ in WORDS] + SEPS + RAW
+SIGMA = SIGMA_MAIN + ODD
 SIGMA_WORDS = [w for w, _ in WORDS][:6] + ["{C\\dd}", " ", ","]
 _CASE = dict(WORDS)
 
@@ -54,7 +56,9 @@ _CASE = dict(WORDS)
 def bounds(tier):
     return {
         "alphabet": SIGMA,
-        "max_len": 5 if tier == "quick" else 6,
+        "max_len": 4 if tier == "quick" else 5,
+        "main_alphabet": SIGMA_MAIN,
+        "main_alphabet_max_len": 5 if tier == "quick" else 6,
         "word_alphabet_max_len": 7 if tier == "quick" else 8,
         "word_alphabet": SIGMA_WORDS,
         "deviation_bases": ["".join(b) for b in BASES],
@@ -63,7 +67,10 @@ def bounds(tier):
 
 
 def shards(tier):
-    out = [("seq", s) for s in seq_shards(SIGMA, 5 if tier == "quick" else 6)]
+    # the full alphabet (incl. NBSP / CR) one token shorter than the main alphabet
+    out = [("seq", s) for s in seq_shards(SIGMA, 4 if tier == "quick" else 5)]
+    n = 5 if tier == "quick" else 6
+    out += [("main", s) for s in seq_shards(SIGMA_MAIN, n, min_len=n)]
     # deeper over words and the main separators only: up to 4 (quick) / 5 (thorough) words in every case pattern
     out += [("words", s) for s in seq_shards(SIGMA_WORDS, 7 if tier == "quick" else 8, min_len=6 if tier == "quick" else 7, prefix_len=3)]
     out += [("mw", 0), ("mw", 1), ("leak", 0)]
@@ -82,7 +89,7 @@ BASES = [
 
 def constructive(tokens):
     """Oracle (i): only for sequences of designed words and separators.  Returns parts dict, 'invalid' or None."""
-    if any(t in RAW for t in tokens):
+    if any(t in RAW or t in ODD for t in tokens):
         return None
     sections = [[]]
     cases = [[]]
@@ -299,6 +306,9 @@ def run_shard(shard, tier, acc):
     kind = shard[0]
     if kind == "seq":
         for toks in seq_iter(SIGMA, shard[1]):
+            check_name("".join(toks), acc, toks)
+    elif kind == "main":
+        for toks in seq_iter(SIGMA_MAIN, shard[1]):
             check_name("".join(toks), acc, toks)
     elif kind == "words":
         for toks in seq_iter(SIGMA_WORDS, shard[1]):
